@@ -2,10 +2,11 @@
 Theorems: coq/theories/Properties/C18.v. Model: Model/Block.v (tied by correspondence on generated
 fragments + a malformed stream). Oracle: the laws evaluated directly on the real helpers."""
 from lib import *
+import re
 
 PAIRS = ['[]', '()', '{}', '<>']
 QUOTES = ['"', "'"]
-IMPORTS = 'From Tranp Require Import Model.Block.'
+IMPORTS = 'From Tranp Require Import Model.Block Model.BlockParse.'
 
 
 # ---- fragment grammar (the same inductive family as Proofs/BlockProofs.v: Ch / Q / G) -----------
@@ -62,6 +63,55 @@ def split_items(d, items):
     return parts
 
 
+def groups_of(group, oc):
+    """specification of parse_bracket below one group: the group, then the groups of the same kind directly inside it
+    (not those inside a quoted string or a group of another kind), outermost first, in document order"""
+    out = [flat([group])]
+    for sub in group[2]:
+        if sub[0] == 'g' and sub[1] == oc:
+            out.extend(groups_of(sub, oc))
+    return out
+
+
+def find_is_exact(items, oc, dirty=False):
+    """okl of Proofs/BlockParseProofs.v: no quoted string / other-kind group that holds the opening bracket sits
+    between the last blank and a group of the parsed kind"""
+    for it in items:
+        if it[0] == 'g' and it[1] == oc:
+            if dirty or not find_is_exact(it[2], oc, False):
+                return False
+            dirty = False
+        elif it[0] == 'ch' and it[1] in ' \n\t':
+            dirty = False
+        else:
+            dirty = dirty or (oc[0] in flat([it]))
+    return True
+
+
+def gen_dict(rnd, depth):
+    """canonical dict text and its (key, value text, depth) pairs"""
+    n = rnd.randint(0, 3)
+    pairs, parts = [], []
+    for _ in range(n):
+        k = rnd.choice(['a', 'key', 'x1', '"k"', "'a,b'", '"p:q"', 'T', 'n_2'])
+        r = rnd.random()
+        if depth > 0 and r < .35:
+            vt, sub = gen_dict(rnd, depth - 1)
+        else:
+            vt, sub = rnd.choice(['b', '1', 'f(x, y)', '[1, 2]', 'map<K, V>', '"v: w"', "'{'", 'g(h(i(0)))', 'v[0]']), []
+        pairs.append((k, vt, sub))
+        parts.append('%s: %s' % (k, vt))
+    return '{' + ', '.join(parts) + '}', pairs
+
+
+def dict_pairs_by_depth(pairs):
+    out, level = [], pairs
+    while level:
+        out.extend((k, v) for k, v, _ in level)
+        level = [p for _, _, sub in level for p in sub]
+    return out
+
+
 def malformed(rnd):
     return ''.join(rnd.choice('a,( )[]"\'=<>{}: x') for _ in range(rnd.randint(0, 14)))
 
@@ -95,7 +145,7 @@ def run(ctx: Ctx) -> None:
 
     # -------- correspondence: model vs implementation -----------------------------------------
     other_tokens = ''.join(B._all_pair)
-    bs_cases, bs_raw, sk_cases, sk_raw, bl_cases, bl_raw, de_cases, de_raw, pa_cases, pa_raw = ([] for _ in range(10))
+    bs_cases, bs_raw, sk_cases, sk_raw, bl_cases, bl_raw, de_cases, de_raw, pa_cases, pa_raw, pb_cases, pb_raw, pp_cases, pp_raw = ([] for _ in range(14))
     ncorr = ctx.n(1200, 12000)
     for i in range(ncorr):
         if rnd.random() < .75:
@@ -119,6 +169,18 @@ def run(ctx: Ctx) -> None:
         bl_cases.append(coq_pair(coq_str(t), coq_str(oc), coq_opt(coq_pair(coq_str(r[1][0]), coq_str(r[1][1])) if r[0] == 'ok' else None)))
         if r[0] not in ('ok', 'IndexError'):
             ctx.broken.append(dict(kind='correspondence', theorem='correspondence break_last_block: unexpected exception class', detail=repr((t, oc, r))))
+        tb = t
+        if rnd.random() < .3:
+            tb = gen_dict(rnd, 2)[0] if rnd.random() < .5 else rnd.choice(['f', 'T', '']) + oc[0] + t + oc[1]
+        r = guarded(lambda: B.parse_bracket(tb, oc))
+        pb_raw.append((tb, oc, r))
+        pb_cases.append(coq_pair(coq_str(tb), coq_str(oc), coq_opt(coq_list(map(coq_str, r[1])) if r[0] == 'ok' else None)))
+        if r[0] not in ('ok', 'IndexError'):
+            ctx.broken.append(dict(kind='correspondence', theorem='correspondence parse_bracket: unexpected exception class', detail=repr((tb, oc, r))))
+        pd = rnd.choice([':', ',', ':,'])
+        r = guarded(lambda: B.parse_pair(tb, oc, pd))
+        pp_raw.append((tb, oc, pd, r))
+        pp_cases.append(coq_pair(coq_str(tb), coq_str(oc), coq_str(pd), coq_opt(coq_list(coq_pair(coq_str(k), coq_str(v)) for k, v in r[1]) if r[0] == 'ok' else None)))
         r = guarded(lambda: D('x')._parse(t))
         de_raw.append((t, r))
         de_cases.append(coq_pair(coq_str(t), coq_opt(None if r[0] != 'ok' else coq_pair(coq_str(r[1][0]), coq_list(coq_pair(coq_str(k), coq_str(v)) for k, v in r[1][1].items()), coq_str(r[1][2])))))
@@ -135,6 +197,10 @@ def run(ctx: Ctx) -> None:
                    'fun c => match c with (t, b, r) => Nat.eqb (b + skip other_tokens (drop b t) [] 0) r end', sk_cases, sk_raw, opt_eq)
     ctx.correspond('break_last_block', IMPORTS, 'str * str * option (str * str)',
                    'fun c => match c with (t, oc, r) => oeq peq (break_last_block t (nth_c oc 0) (nth_c oc 1)) r end', bl_cases, bl_raw, opt_eq)
+    ctx.correspond('parse_bracket', IMPORTS, 'str * str * option (list str)',
+                   'fun c => match c with (t, oc, r) => oeq leq (parse_bracket t (nth_c oc 0) (nth_c oc 1)) r end', pb_cases, pb_raw, opt_eq)
+    ctx.correspond('parse_pair', IMPORTS, 'str * str * str * option (list (str * str))',
+                   'fun c => match c with (t, oc, d, r) => oeq dleq (parse_pair t (nth_c oc 0) (nth_c oc 1) d) r end', pp_cases, pp_raw, opt_eq)
     ctx.correspond('decorator_parse', IMPORTS, 'str * option (str * list (str * str) * str)',
                    'fun c => match c with (t, r) => match r with Some (p, a, j) => match decorator_parse t with (p2, a2, j2) => str_eqb p p2 && dleq a a2 && str_eqb j j2 end | None => false end end', de_cases, de_raw, opt_eq)
     ctx.correspond('param_parse', IMPORTS, 'str * option (str * str * str)',
@@ -148,7 +214,7 @@ def run(ctx: Ctx) -> None:
 
 
 def oracle_one(ctx, B, D, V, rnd):
-    law = rnd.choice(['sep', 'sep', 'last', 'dec', 'param'])
+    law = rnd.choice(['sep', 'sep', 'last', 'dec', 'param', 'bracket', 'bracket', 'pair'])
     ctx.count('law:' + law)
     if law == 'sep':
         qmode = rnd.choice(['plain', 'full', 'full'])
@@ -176,6 +242,40 @@ def oracle_one(ctx, B, D, V, rnd):
         if got != ('ok', (prefix, inner)):
             ctx.violation('break_last_block', 'break_last_block(prefix+group) does not return (prefix, inside)',
                           dict(input=dict(helper='break_last_block', text=t, brackets=oc), oracle_result=[prefix, inner], impl_result=got))
+    elif law == 'bracket':
+        oc = rnd.choice(PAIRS)
+        items = gen_items(rnd, 2, rnd.randint(0, 3), 'full')
+        # a root group of the parsed kind with same-kind nesting up to four levels, adjacent closers included
+        def nest(d):
+            body = gen_items(rnd, 1, rnd.randint(0, 3), 'full')
+            for _ in range(rnd.randint(0, 2) if d > 0 else 0):
+                body.insert(rnd.randint(0, len(body)), nest(d - 1))
+                if rnd.random() < .5:
+                    body.append(('ch', rnd.choice('ax ,')))
+            return ('g', oc, body)
+        pre = [it for it in items if not (it[0] == 'g' and it[1] == oc)]
+        root = nest(rnd.randint(1, 4))
+        tail = gen_items(rnd, 1, rnd.randint(0, 2), 'full')
+        t = flat(pre + [root] + tail)
+        exact = find_is_exact(pre + [root], oc)
+        want = groups_of(root, oc)
+        got = guarded(lambda: B.parse_bracket(t, oc))
+        ctx.case(('bracket', t, oc), oc[1] * 2 in t or not exact)
+        ctx.sample(dict(law='parse_bracket', text=t, brackets=oc, result=got[1]))
+        if got != ('ok', want):
+            sig = 'parse_bracket:groups' if exact else 'parse_bracket:find-from-entry-begin'
+            ctx.violation(sig, 'parse_bracket does not return the groups below the first group, or returns an unbalanced piece (%s)' % sig,
+                          dict(input=dict(helper='parse_bracket', text=t, brackets=oc), oracle_result=want, impl_result=got))
+    elif law == 'pair':
+        t, pairs = gen_dict(rnd, 3)
+        t = rnd.choice(['', '', 'name']) + t
+        want = [list(p) for p in dict_pairs_by_depth(pairs)]
+        got = guarded(lambda: B.parse_pair(t, '{}', ':,'))
+        ctx.case(('pair', t), any(sub for _, _, sub in pairs))
+        ctx.sample(dict(law='parse_pair', text=t, result=got[1]))
+        if got[0] != 'ok' or [list(p) for p in got[1]] != want:
+            ctx.violation('parse_pair', 'parse_pair does not return the key / value texts of a canonical dict, outer pairs first',
+                          dict(input=dict(helper='parse_pair', text=t), oracle_result=want, impl_result=got))
     elif law == 'dec':
         path = '.'.join(rnd.choice(['Embed', 'alias', 'prop', 'a', 'b_c', 'meta']) for _ in range(rnd.randint(1, 3)))
         args = []
@@ -232,6 +332,10 @@ def replay(ctx: Ctx, data: dict) -> int:
         got = guarded(lambda: B.break_separator(inp['text'], inp['delimiter']))
     elif h == 'break_last_block':
         got = guarded(lambda: B.break_last_block(inp['text'], inp['brackets']))
+    elif h == 'parse_bracket':
+        got = guarded(lambda: B.parse_bracket(inp['text'], inp['brackets']))
+    elif h == 'parse_pair':
+        got = guarded(lambda: [list(p) for p in B.parse_pair(inp['text'], '{}', ':,')])
     elif h == 'DecoratorHelper._parse':
         got = guarded(lambda: D('x')._parse(inp['text']))
     else:
